@@ -53,6 +53,18 @@ def structure(tokens: Dict[str, str], template: str) -> bool:
     return why(_shape(rq) == _shape(dq), "string form recompiles to a different structure", s) and why(str(rq) == s, "not a fixed point", s, str(rq))
 
 
+def structure_history(history: List[Any]) -> bool:
+    """Several environments with different token assignments used one after another in one process: the *last*
+    (tokens, template) must still satisfy structure() - state shared between environments would show here."""
+    for tokens, template in history[:-1]:
+        try:
+            structure(tokens, template)
+        except Exception:  # noqa: BLE001 - only the last entry is judged
+            pass
+    tokens, template = history[-1]
+    return structure(tokens, template)
+
+
 def _shape(q: Any) -> Any:
     if hasattr(q, "paths"):
         kind = {"|": "union", "&": "intersection"}
